@@ -7,6 +7,7 @@ import (
 	"encoding/base64"
 	"encoding/json"
 	"fmt"
+	"io"
 	"math"
 	"net/http"
 	"net/http/httptest"
@@ -155,7 +156,7 @@ func c03Setup() *c03Env {
 		OneofDecl: []*descriptorpb.OneofDescriptorProto{{Name: proto.String("choice")}},
 	}
 	mapEntry := &descriptorpb.DescriptorProto{Name: proto.String("MpEntry"),
-		Field: []*descriptorpb.FieldDescriptorProto{c03Field("key", 1, tString, "", false), c03Field("value", 2, tString, "", false)},
+		Field:   []*descriptorpb.FieldDescriptorProto{c03Field("key", 1, tString, "", false), c03Field("value", 2, tString, "", false)},
 		Options: &descriptorpb.MessageOptions{MapEntry: proto.Bool(true)},
 	}
 	G := ".google.protobuf."
@@ -409,6 +410,7 @@ func c03SetPath(m protoreflect.Message, fds []protoreflect.FieldDescriptor, v pr
 	}
 	m.Set(fds[len(fds)-1], v)
 }
+
 // clear the field and every parent message that becomes empty by it
 func c03ClearPath(m protoreflect.Message, fds []protoreflect.FieldDescriptor) {
 	ms := []protoreflect.Message{m}
@@ -844,7 +846,13 @@ func (e *c03Env) send(c *c03Case) (obs string) {
 		if c.Body.Gz == 1 {
 			raw = c03Gzip(raw)
 		}
-		req = httptest.NewRequest(c.Rule.Verb, target, bytes.NewReader(raw))
+		if len(raw)%2 == 1 {
+			// a body whose length is not declared (chunked upload, HTTP/2 without content-length):
+			// ContentLength is -1 and the body must still be read
+			req = httptest.NewRequest(c.Rule.Verb, target, struct{ io.Reader }{bytes.NewReader(raw)})
+		} else {
+			req = httptest.NewRequest(c.Rule.Verb, target, bytes.NewReader(raw))
+		}
 		switch c.Body.Codec {
 		case "j":
 			req.Header.Set("Content-Type", "application/json")
@@ -862,12 +870,16 @@ func (e *c03Env) send(c *c03Case) (obs string) {
 	e.got = nil
 	w := httptest.NewRecorder()
 	e.mux.ServeHTTP(w, req)
-	if w.Code != 200 {
-		return "err:" + strconv.Itoa(w.Code)
-	}
 	if e.got == nil {
+		// the handler did not run: the request was refused
+		if w.Code != 200 {
+			return "err:" + strconv.Itoa(w.Code)
+		}
 		return "err:nohandler"
 	}
+	// the handler ran: what it received is the observation, whatever became of the reply (a request
+	// with an unknown content type is decoded fine when the rule has no body, and the reply then has
+	// no codec: that is the response side, property C04)
 	return "ok:" + c03Tree(e.got.ProtoReflect())
 }
 
